@@ -267,7 +267,12 @@ func (p *printer) nl(indent string) string {
 func writeParams(p *printer, kind string, ps []Param, indent string) {
 	for _, pa := range ps {
 		p.comment(indent)
-		fmt.Fprintf(&p.b, "%s%s%s%s%s%s", indent, kind, p.ws(), pa.T, p.ws(), pa.Name)
+		if kind == "out" && pa.Name == "default" {
+			// the unnamed ("default") output of the legacy syntax: out T,
+			fmt.Fprintf(&p.b, "%s%s%s%s", indent, kind, p.ws(), pa.T)
+		} else {
+			fmt.Fprintf(&p.b, "%s%s%s%s%s%s", indent, kind, p.ws(), pa.T, p.ws(), pa.Name)
+		}
 		if pa.Help != "" || pa.OutName != "" {
 			fmt.Fprintf(&p.b, "%s%s", p.ws(), QuoteMro(pa.Help))
 		}
@@ -450,17 +455,23 @@ func (p *printer) printCall(prog *Program, pl *Pipeline, c *Call, indent string)
 		p.b.WriteString("map ")
 	}
 	p.b.WriteString("call ")
-	old := p.lay != nil && p.lay.OldModifiers && c.Disabled == nil
-	if old {
-		if c.Local {
-			p.b.WriteString("local ")
-		}
-		if c.Preflight {
-			p.b.WriteString("preflight ")
-		}
-		if c.Volatile {
-			p.b.WriteString("volatile ")
-		}
+	// With OldModifiers each of local / preflight / volatile is written
+	// either as a keyword in front of the callee or as "<mod> = true" in
+	// the using block (a call may mix both forms).
+	kwLocal, kwPreflight, kwVolatile := false, false, false
+	if p.lay != nil && p.lay.OldModifiers {
+		kwLocal = c.Local && p.pick(3) != 0
+		kwPreflight = c.Preflight && p.pick(3) != 0
+		kwVolatile = c.Volatile && p.pick(3) != 0
+	}
+	if kwLocal {
+		p.b.WriteString("local ")
+	}
+	if kwPreflight {
+		p.b.WriteString("preflight ")
+	}
+	if kwVolatile {
+		p.b.WriteString("volatile ")
 	}
 	p.b.WriteString(c.Callee)
 	if c.Id != c.Callee {
@@ -484,21 +495,30 @@ func (p *printer) printCall(prog *Program, pl *Pipeline, c *Call, indent string)
 	}
 	p.dangling(indent + "    ")
 	p.b.WriteString(indent + ")")
-	if !old && (c.Local || c.Preflight || c.Volatile || c.Disabled != nil) {
+	var using []string
+	if c.Disabled != nil {
+		sub := &printer{lay: p.lay, u: p.u}
+		sub.printExpr(*c.Disabled, indent+"    ")
+		using = append(using, "disabled = "+sub.b.String())
+	}
+	if c.Local && !kwLocal {
+		using = append(using, "local = true")
+	}
+	if c.Preflight && !kwPreflight {
+		using = append(using, "preflight = true")
+	}
+	if c.Volatile && !kwVolatile {
+		using = append(using, "volatile = true")
+	}
+	if len(using) > 0 {
+		// any order of the entries
+		for i := len(using) - 1; i > 0; i-- {
+			j := p.pick(i + 1)
+			using[i], using[j] = using[j], using[i]
+		}
 		p.b.WriteString(" using (\n")
-		if c.Disabled != nil {
-			fmt.Fprintf(&p.b, "%s    disabled = ", indent)
-			p.printExpr(*c.Disabled, indent+"    ")
-			p.b.WriteString(",\n")
-		}
-		if c.Local {
-			fmt.Fprintf(&p.b, "%s    local = true,\n", indent)
-		}
-		if c.Preflight {
-			fmt.Fprintf(&p.b, "%s    preflight = true,\n", indent)
-		}
-		if c.Volatile {
-			fmt.Fprintf(&p.b, "%s    volatile = true,\n", indent)
+		for _, u := range using {
+			fmt.Fprintf(&p.b, "%s    %s,\n", indent, u)
 		}
 		p.b.WriteString(indent + ")")
 	}
